@@ -163,7 +163,7 @@ class Scratch:
     def build(self, pkg, race=False):
         """go build ./<pkg> in the harness module, hooks on (-tags verif). Returns (binary|None, log)."""
         out_bin = os.path.join(self.dir, "bin_" + pkg.replace("/", "_") + ("_race" if race else ""))
-        cover = ["-cover", "-coverpkg=github.com/bbva/qed/..."] if os.environ.get("VERIF_COVER") else []
+        cover = ["-cover", "-coverpkg=github.com/bbva/qed/...,qedverif/..."] if os.environ.get("VERIF_COVER") else []
         cmd = ["go", "build", "-trimpath", "-tags", "verif"] + cover + (["-race"] if race else []) + ["-o", out_bin, "./" + pkg]
         rc, out, _ = sh(cmd, cwd=self.h, env=GOENV, timeout=1500)
         return (out_bin if rc == 0 else None), out
